@@ -59,3 +59,15 @@ Proof.
   rewrite P1 in Q1. rewrite P2 in Q2. inversion Q1; inversion Q2; subst. rewrite N1, N2. reflexivity.
 Qed.
 Print Assumptions valid_same_key_same_nid.
+
+(* the id does not change under any update made with the same key *)
+Theorem same_key_update_keeps_nid : forall (c : crypto) kt r o k sg x r',
+  Valid c kt r -> public_key c kt r = Ok (sk_pub k) -> (forall n, o = OSetSeq n -> n < 2 ^ 64) ->
+  step c kt r o k sg = (Ok x, r') -> nid r' = nid r.
+Proof.
+  intros c kt r o k sg x r' Hv Hp Hn H.
+  destruct (Thm_Valid.valid_observables c kt r Hv) as (pk & Q & _ & _ & N & _ & Hs & _).
+  rewrite Hp in Q. inversion Q; subst pk.
+  rewrite (Thm_Update.step_nid c kt _ _ _ _ _ _ Hs Hn H), N. reflexivity.
+Qed.
+Print Assumptions same_key_update_keeps_nid.
